@@ -1,7 +1,7 @@
 import json
 import os
 
-from lib import COQ
+from lib import COQ, REPO, Lock, sh
 
 
 def robust_flow(ctx, pkg, mismatch_key, coq_targets=(), proof=True, run_timeout=3000, coq_timeout=2400):
@@ -82,7 +82,7 @@ def run(ctx):
         ctx.settle_l1()
         return
     gen = os.path.join(COQ, "theories", "Gen", "GenC07Purity.v")
-    rc, out = ctx.go_run(binpath, ["-mode", "table", "-gen", gen, "-dir", ctx.work], timeout=600)
+    rc, out = ctx.go_run(binpath, ["-mode", "table", "-gen", gen, "-dir", ctx.work, "-repo", REPO], timeout=600)
     tpath = os.path.join(ctx.work, "table.json")
     if rc != 0 or not os.path.exists(tpath):
         ctx.failure("table-extraction", "extraction of the built-in purity table failed: " + out[-1500:],
@@ -94,7 +94,12 @@ def run(ctx):
                                     "ground_truth": "corpus/C07/mutates_receiver.json"})
         ctx.cov["builtin_table_problems"] = len(probs)
     # 2. proof leg over the regenerated table
-    ctx.require_proofs(extra_targets=["theories/C07/Cases.vo"])
+    r0 = ctx.require_proofs(extra_targets=["theories/C07/Cases.vo"])
+    if not r0["ok"]:
+        # a broken obligation (e.g. the table or the wiring) must not prevent the model from being evaluated on the
+        # cases: the case checker does not depend on the obligations
+        with Lock("coq"):
+            sh(["make", "-j4", "theories/C07/Cases.vo"], cwd=COQ, timeout=1800)
     # 3. correspondence + direct monitors
     robust_flow(ctx, "c07", lambda d: "model-mismatch:kind-%s" % d.get("kind"), proof=False)
     # a broken proof leg must not hide behind the known findings (which are concrete failing inputs of their own)
